@@ -405,7 +405,11 @@ class MultiVector:
             return self
         keys_out, func = self._callable
         if kwargs:
-            args = [v for k, v in sorted(kwargs.items(), key=lambda x: x[0])]
+            # Bind by name: the lambdified function takes the free symbols in name order.
+            names = [symbol.name for symbol in sorted(self.free_symbols, key=lambda x: x.name)]
+            if sorted(kwargs) != names:
+                raise TypeError(f'Expected values for the symbols {names}, but got {sorted(kwargs)}.')
+            args = [kwargs[name] for name in names]
         values = func(args)
         return self.fromkeysvalues(self.algebra, keys_out, values)
 
